@@ -69,6 +69,11 @@ func genFS(t *rapid.T, depth int, allowFifo bool) *fsNode {
 			b := rapid.SliceOfN(rapid.SampledFrom([]byte("ab./ \xc3\xa9\xff-~")), 1, 24).Draw(t, "targetbytes")
 			return &fsNode{Kind: fsSymlink, Target: string(b)}
 		}
+		if rapid.IntRange(0, 7).Draw(t, "longtarget") == 0 {
+			// targets up to the file system's limit (PATH_MAX - 1 = 4095 bytes on Linux), around the sizes of common buffers
+			n := rapid.SampledFrom([]int{127, 128, 255, 256, 1023, 1024, 1025, 2048, 4000, 4095}).Draw(t, "targetLen")
+			return &fsNode{Kind: fsSymlink, Target: strings.Repeat("../d/", n/5) + strings.Repeat("x", n%5)}
+		}
 		return &fsNode{Kind: fsSymlink, Target: rapid.SampledFrom(fsTargets).Draw(t, "target")}
 	case k == 4:
 		if allowFifo {
